@@ -14,112 +14,141 @@
 using namespace asmjit;
 
 namespace mach {
+// Machine-level obligations are accumulated in sticky flags and asserted once after the prolog and once after the epilog
+// (one proof obligation per kind instead of one per executed instruction).
+static uint32_t viol;   // bit k = obligation k violated
+#define CHK(k, c) do { if (!(c)) mach::viol |= 1u << (k); } while (0)
 // Values are 32-bit in the model for both architectures: saved register contents are only compared for equality and every
 // address is below 2^31, so the arithmetic the prolog does on rsp/rbp (push, sub, add, and, lea) is exact.
 typedef uint32_t val_t;
 // Stack memory is modelled as the set of stores made so far: one slot per (register group, register id) plus the DA slot.
-// Every new store must be disjoint from all earlier ones, lie at or above the current SP and below the return address; the
-// body may then overwrite the call and local areas only, which must be disjoint from every slot. Under these (asserted)
-// conditions a load returns the value of the store made at exactly that address and size, and garbage (nondet) otherwise.
+// Disjointness of the stores is established by a sufficient condition that costs O(1) per store: pushes form a hull that only
+// grows downwards; the register saves form a second hull below the pushes that only grows at its ends; the DA slot is a third
+// interval. The body
+// may overwrite the call and local areas only, which must lie below both hulls. Under these (asserted) conditions a load of
+// register r at the address and size r was stored with returns the stored value; any other load returns garbage (nondet).
 enum : uint32_t { G_GP = 0, G_VEC = 1, G_K = 2, G_MM = 3, G_DA = 4 };
 static val_t gp[16], vec[16], kr[8], mmr[8];
-static val_t s_addr[4][16], s_val[4][16]; static uint32_t s_valid[4]; static const uint32_t s_size_of[4] = { 0, 16, 8, 8 };
+static val_t s_addr[4][16], s_val[4][16]; static uint32_t s_valid[4];
 static val_t da_addr, da_val; static bool da_valid;
+static val_t push_lo;            // lowest address written by a push (initially: the return address word)
+static val_t ex_lo, ex_hi; static bool ex_valid;   // hull of all other stores
 static val_t top;               // first address above the return address word
 static val_t ret_word;          // the caller's return address (at top - W)
 static uint32_t W;              // word = GP register size
 static bool ret_seen; static val_t ret_target; static uint32_t n_inst, n_store;
 
-static inline uint32_t size_of_group(uint32_t g) { return g == G_GP ? W : s_size_of[g & 3]; }
-static inline bool overlap(val_t a, uint32_t asz, val_t b, uint32_t bsz) { return a < b + bsz && b < a + asz; }
+static inline uint32_t size_of_group(uint32_t g) { return g == G_GP || g == G_DA ? W : g == G_VEC ? 16u : 8u; }
 
-static void check_disjoint(val_t addr, uint32_t size) {
-  for (uint32_t i = 0; i < 16; i++) if ((s_valid[G_GP] >> i) & 1) V_ASSERT(!overlap(addr, size, s_addr[G_GP][i], W), "store does not overlap a saved GP register");
-  for (uint32_t i = 0; i < 16; i++) if ((s_valid[G_VEC] >> i) & 1) V_ASSERT(!overlap(addr, size, s_addr[G_VEC][i], 16), "store does not overlap a saved xmm register");
-  for (uint32_t i = 0; i < 8; i++) {
-    if ((s_valid[G_K] >> i) & 1) V_ASSERT(!overlap(addr, size, s_addr[G_K][i], 8), "store does not overlap a saved k register");
-    if ((s_valid[G_MM] >> i) & 1) V_ASSERT(!overlap(addr, size, s_addr[G_MM][i], 8), "store does not overlap a saved mm register");
+static void store(uint32_t g, uint32_t r, val_t addr, val_t v, bool is_push) {
+  uint32_t size = size_of_group(g);
+  CHK(0, addr >= gp[4]);
+  if (is_push) { CHK(1, addr + size <= push_lo && (!ex_valid || ex_hi <= addr)); push_lo = addr; }
+  else {
+    CHK(2, addr + size <= push_lo);
+    if (g == G_DA) CHK(3, !ex_valid || addr + size <= ex_lo || addr >= ex_hi);                 // the DA slot is an interval of its own
+    else {
+      CHK(3, (!ex_valid || addr + size <= ex_lo || addr >= ex_hi) && (!da_valid || addr + size <= da_addr || addr >= da_addr + W));
+      if (!ex_valid) { ex_lo = addr; ex_hi = addr + size; ex_valid = true; } else { if (addr < ex_lo) ex_lo = addr; if (addr + size > ex_hi) ex_hi = addr + size; }
+    }
   }
-  if (da_valid) V_ASSERT(!overlap(addr, size, da_addr, W), "store does not overlap the DA slot");
-}
-static void store(uint32_t g, uint32_t r, val_t addr, val_t v) {
-  uint32_t size = g == G_DA ? W : size_of_group(g);
-  V_ASSERT(addr + size <= top - W && addr < top, "no store to the return address or above it");
-  V_ASSERT(addr >= gp[4], "no store below the current stack pointer");
-  check_disjoint(addr, size);
-  if (g == G_DA) { V_ASSERT(!da_valid, "DA slot written once"); da_addr = addr; da_val = v; da_valid = true; }
-  else { V_ASSERT(((s_valid[g & 3] >> (r & 15)) & 1) == 0, "a register is saved once"); s_addr[g & 3][r & 15] = addr; s_val[g & 3][r & 15] = v; s_valid[g & 3] |= 1u << (r & 15); }
+  if (g == G_DA) { CHK(4, !da_valid); da_addr = addr; da_val = v; da_valid = true; }
+  else { CHK(5, ((s_valid[g & 3] >> (r & 15)) & 1) == 0); s_addr[g & 3][r & 15] = addr; s_val[g & 3][r & 15] = v; s_valid[g & 3] |= 1u << (r & 15); }
   n_store++;
 }
-// value found at [addr, addr+size): the store made exactly there, else garbage
-static val_t load(uint32_t g, val_t addr) {
+// value found at addr when loading register r of group g: what r was saved with if that is its slot, else garbage
+static val_t load(uint32_t g, uint32_t r, val_t addr) {
   val_t v = nondet_u32();
-  uint32_t n = g == G_GP || g == G_VEC ? 16 : 8;
-  for (uint32_t i = 0; i < 16; i++) if (i < n && ((s_valid[g & 3] >> i) & 1) && s_addr[g & 3][i] == addr) v = s_val[g & 3][i];
-  if (g == G_GP && da_valid && da_addr == addr) v = da_val;
-  if (g == G_GP && addr == top - W) v = ret_word;
+  if (((s_valid[g & 3] >> (r & 15)) & 1) && s_addr[g & 3][r & 15] == addr) v = s_val[g & 3][r & 15];
+  if (g == G_GP && r == 4 && da_valid && da_addr == addr) v = da_val;
   return v;
 }
 
 static val_t ea(const Operand_& o) {
   const x86::Mem& m = o.as<x86::Mem>();
-  V_ASSERT(m.has_base_reg() && !m.has_index() && m.base_id() < 16, "model: memory operand is base plus displacement");
+  CHK(6, m.has_base_reg() && !m.has_index() && m.base_id() < 16);
   return gp[m.base_id() & 15] + val_t(int32_t(m.offset()));
 }
 
 static Error exec(InstId id, const Operand_& o0, const Operand_& o1) {
   n_inst++;
+  // Register-save moves (xmm, k, mm <-> memory) are recognised by their operand kinds, which are concrete at every call site,
+  // not by the instruction id, which depends on frame attributes (movaps, movups, vmovaps, vmovups).
+  {
+    const Operand_& ro = o0.is_mem() ? o1 : o0; const Operand_& mo = o0.is_mem() ? o0 : o1;
+    if (ro.is_reg() && !ro.as<Reg>().is_gp()) {
+      bool is_store = o0.is_mem();
+      RegType rt = ro.as<Reg>().reg_type(); uint32_t r = ro.id();
+      CHK(7, mo.is_mem() && (rt == RegType::kVec128 || rt == RegType::kMask || rt == RegType::kX86_Mm));
+      val_t a = ea(mo);
+      if (rt == RegType::kVec128) {
+        bool aligned = id == x86::Inst::kIdMovaps || id == x86::Inst::kIdVmovaps;
+        CHK(8, r < 16 && (aligned || id == x86::Inst::kIdMovups || id == x86::Inst::kIdVmovups));
+        CHK(9, !aligned || a % 16 == 0);
+        if (is_store) store(G_VEC, r, a, vec[r & 15], false); else vec[r & 15] = load(G_VEC, r, a);
+      } else if (rt == RegType::kMask) {
+        CHK(10, r < 8 && id == x86::Inst::kIdKmovq);
+        if (is_store) store(G_K, r, a, kr[r & 7], false); else kr[r & 7] = load(G_K, r, a);
+      } else {
+        CHK(11, r < 8 && id == x86::Inst::kIdMovq);
+        if (is_store) store(G_MM, r, a, mmr[r & 7], false); else mmr[r & 7] = load(G_MM, r, a);
+      }
+      return Error::kOk;
+    }
+  }
   switch (id) {
     case x86::Inst::kIdPush: {
-      V_ASSERT(o0.is_reg() && o0.as<Reg>().is_gp() && o0.id() < 16, "push of a GP register");
-      gp[4] = gp[4] - W; store(G_GP, o0.id(), gp[4], gp[o0.id() & 15]); break;
+      CHK(12, o0.is_reg() && o0.as<Reg>().is_gp() && o0.id() < 16);
+      gp[4] = gp[4] - W; store(G_GP, o0.id(), gp[4], gp[o0.id() & 15], true); break;
     }
     case x86::Inst::kIdPop: {
-      V_ASSERT(o0.is_reg() && o0.as<Reg>().is_gp() && o0.id() < 16 && o0.id() != 4, "pop into a GP register other than SP");
-      gp[o0.id() & 15] = load(G_GP, gp[4]); gp[4] = gp[4] + W; break;
+      CHK(13, o0.is_reg() && o0.as<Reg>().is_gp() && o0.id() < 16 && o0.id() != 4);
+      gp[o0.id() & 15] = load(G_GP, o0.id(), gp[4]); gp[4] = gp[4] + W; break;
     }
     case x86::Inst::kIdMov: {
-      if (o0.is_reg() && o1.is_reg()) { V_ASSERT(o0.id() < 16 && o1.id() < 16, "mov r, r"); gp[o0.id() & 15] = gp[o1.id() & 15]; }
-      else if (o0.is_mem() && o1.is_reg()) { V_ASSERT(o1.id() < 16, "mov m, r"); store(G_DA, 0, ea(o0), gp[o1.id() & 15]); }
-      else { V_ASSERT(o0.is_reg() && o1.is_mem() && o0.id() < 16, "mov r, m"); gp[o0.id() & 15] = load(G_GP, ea(o1)); }
+      if (o0.is_reg() && o1.is_reg()) { CHK(14, o0.id() < 16 && o1.id() < 16); gp[o0.id() & 15] = gp[o1.id() & 15]; }
+      else if (o0.is_mem() && o1.is_reg()) { CHK(15, o1.id() < 16); store(G_DA, 0, ea(o0), gp[o1.id() & 15], false); }
+      else { CHK(16, o0.is_reg() && o1.is_mem() && o0.id() < 16); gp[o0.id() & 15] = load(G_GP, o0.id(), ea(o1)); }
       break;
     }
-    case x86::Inst::kIdLea: { V_ASSERT(o0.is_reg() && o1.is_mem() && o0.id() < 16, "lea r, m"); gp[o0.id() & 15] = ea(o1); break; }
-    case x86::Inst::kIdAnd: { V_ASSERT(o0.is_reg() && o1.is_imm() && o0.id() < 16, "and r, imm"); gp[o0.id() & 15] &= val_t(o1.as<Imm>().value()); break; }
-    case x86::Inst::kIdSub: { V_ASSERT(o0.is_reg() && o1.is_imm() && o0.id() < 16, "sub r, imm"); gp[o0.id() & 15] -= val_t(o1.as<Imm>().value()); break; }
-    case x86::Inst::kIdAdd: { V_ASSERT(o0.is_reg() && o1.is_imm() && o0.id() < 16, "add r, imm"); gp[o0.id() & 15] += val_t(o1.as<Imm>().value()); break; }
-    case x86::Inst::kIdMovaps: case x86::Inst::kIdVmovaps: case x86::Inst::kIdMovups: case x86::Inst::kIdVmovups: {
-      bool aligned = id == x86::Inst::kIdMovaps || id == x86::Inst::kIdVmovaps;
-      if (o0.is_mem()) {
-        V_ASSERT(o1.is_reg() && o1.as<Reg>().is_vec128() && o1.id() < 16, "vector save stores an xmm register");
-        val_t a = ea(o0); if (aligned) V_ASSERT(a % 16 == 0, "aligned vector store goes to a 16-byte aligned address");
-        store(G_VEC, o1.id(), a, vec[o1.id() & 15]);
-      } else {
-        V_ASSERT(o0.is_reg() && o0.as<Reg>().is_vec128() && o0.id() < 16 && o1.is_mem(), "vector restore loads an xmm register");
-        val_t a = ea(o1); if (aligned) V_ASSERT(a % 16 == 0, "aligned vector load comes from a 16-byte aligned address");
-        vec[o0.id() & 15] = load(G_VEC, a);
-      }
-      break;
-    }
-    case x86::Inst::kIdKmovq: {
-      if (o0.is_mem()) { V_ASSERT(o1.is_reg() && o1.as<Reg>().reg_type() == RegType::kMask && o1.id() < 8, "kmovq m, k"); store(G_K, o1.id(), ea(o0), kr[o1.id() & 7]); }
-      else { V_ASSERT(o0.is_reg() && o0.as<Reg>().reg_type() == RegType::kMask && o0.id() < 8 && o1.is_mem(), "kmovq k, m"); kr[o0.id() & 7] = load(G_K, ea(o1)); }
-      break;
-    }
-    case x86::Inst::kIdMovq: {
-      if (o0.is_mem()) { V_ASSERT(o1.is_reg() && o1.as<Reg>().reg_type() == RegType::kX86_Mm && o1.id() < 8, "movq m, mm"); store(G_MM, o1.id(), ea(o0), mmr[o1.id() & 7]); }
-      else { V_ASSERT(o0.is_reg() && o0.as<Reg>().reg_type() == RegType::kX86_Mm && o0.id() < 8 && o1.is_mem(), "movq mm, m"); mmr[o0.id() & 7] = load(G_MM, ea(o1)); }
-      break;
-    }
+    case x86::Inst::kIdLea: { CHK(17, o0.is_reg() && o1.is_mem() && o0.id() < 16); gp[o0.id() & 15] = ea(o1); break; }
+    case x86::Inst::kIdAnd: { CHK(18, o0.is_reg() && o1.is_imm() && o0.id() < 16); gp[o0.id() & 15] &= val_t(o1.as<Imm>().value()); break; }
+    case x86::Inst::kIdSub: { CHK(19, o0.is_reg() && o1.is_imm() && o0.id() < 16); gp[o0.id() & 15] -= val_t(o1.as<Imm>().value()); break; }
+    case x86::Inst::kIdAdd: { CHK(20, o0.is_reg() && o1.is_imm() && o0.id() < 16); gp[o0.id() & 15] += val_t(o1.as<Imm>().value()); break; }
     case x86::Inst::kIdEmms: case x86::Inst::kIdVzeroupper: case x86::Inst::kIdEndbr32: case x86::Inst::kIdEndbr64: break;
     case x86::Inst::kIdRet: {
-      V_ASSERT(!ret_seen, "single ret");
+      CHK(21, !ret_seen);
       val_t pop = o0.is_imm() ? val_t(o0.as<Imm>().value()) : 0;
-      ret_target = load(G_GP, gp[4]); gp[4] = gp[4] + W + pop; ret_seen = true; break;
+      ret_target = gp[4] == top - W ? ret_word : nondet_u32(); gp[4] = gp[4] + W + pop; ret_seen = true; break;
     }
-    default: V_ASSERT(false, "instruction outside the prolog-epilog model"); break;
+    default: CHK(22, false); break;
   }
   return Error::kOk;
+}
+static void flush_checks() {
+  V_ASSERT(((viol >> 0) & 1) == 0, "no store below the current stack pointer");
+  V_ASSERT(((viol >> 1) & 1) == 0, "a push goes below every earlier push and above the other saves");
+  V_ASSERT(((viol >> 2) & 1) == 0, "register save lies below the pushed registers and the return address");
+  V_ASSERT(((viol >> 3) & 1) == 0, "register save does not overlap an earlier save");
+  V_ASSERT(((viol >> 4) & 1) == 0, "DA slot written once");
+  V_ASSERT(((viol >> 5) & 1) == 0, "a register is saved once");
+  V_ASSERT(((viol >> 6) & 1) == 0, "model: memory operand is base plus displacement");
+  V_ASSERT(((viol >> 7) & 1) == 0, "register save moves an xmm, k or mm register to or from memory");
+  V_ASSERT(((viol >> 8) & 1) == 0, "xmm registers are saved with movaps, movups, vmovaps or vmovups");
+  V_ASSERT(((viol >> 9) & 1) == 0, "aligned vector move uses a 16-byte aligned address");
+  V_ASSERT(((viol >> 10) & 1) == 0, "k registers are saved with kmovq");
+  V_ASSERT(((viol >> 11) & 1) == 0, "mm registers are saved with movq");
+  V_ASSERT(((viol >> 12) & 1) == 0, "push of a GP register");
+  V_ASSERT(((viol >> 13) & 1) == 0, "pop into a GP register other than SP");
+  V_ASSERT(((viol >> 14) & 1) == 0, "mov r, r");
+  V_ASSERT(((viol >> 15) & 1) == 0, "mov m, r");
+  V_ASSERT(((viol >> 16) & 1) == 0, "mov r, m");
+  V_ASSERT(((viol >> 17) & 1) == 0, "lea r, m");
+  V_ASSERT(((viol >> 18) & 1) == 0, "and r, imm");
+  V_ASSERT(((viol >> 19) & 1) == 0, "sub r, imm");
+  V_ASSERT(((viol >> 20) & 1) == 0, "add r, imm");
+  V_ASSERT(((viol >> 21) & 1) == 0, "single ret");
+  V_ASSERT(((viol >> 22) & 1) == 0, "instruction outside the prolog-epilog model");
 }
 }  // namespace mach
 
@@ -132,10 +161,11 @@ Error BaseEmitter::_emitI(InstId inst_id, const Operand_& o0, const Operand_& o1
 ASMJIT_END_NAMESPACE
 
 alignas(16) static unsigned char emitter_mem[sizeof(BaseEmitter)];
+static uint32_t dbg_P, dbg_S, dbg_sp0, dbg_spb, dbg_saved, dbg_attr, dbg_da, dbg_ninst;
 
 enum Known { K_NONE, K_C07A, K_C07B };
 // CUSTOM: the frame's preserved sets are extended as a user-defined convention may do (k, mm, more xmm registers)
-template<Arch ARCH, Known KNOWN, bool CUSTOM>
+template<Arch ARCH, Known KNOWN, bool CUSTOM, bool VECS>
 static void run(Platform plat, PlatformABI pabi, CallConvId ccid) {
   using namespace mach;
   constexpr bool k32 = ARCH == Arch::kX86;
@@ -151,6 +181,13 @@ static void run(Platform plat, PlatformABI pabi, CallConvId ccid) {
   fd._arg_stack_size = (nondet_u32() & 0xFC);
   FuncFrame f;
   V_ASSERT(f.init(fd) == Error::kOk, "frame init accepted");
+  // Groups no built-in convention preserves: asserted to be empty, then written as the constant 0 so that the solver does not
+  // unroll the save/restore loops of groups that cannot be saved.
+  if (!CUSTOM) {
+    V_ASSERT(f.preserved_regs(RegGroup::kMask) == 0 && f.preserved_regs(RegGroup::kX86_MM) == 0, "built-in conventions preserve no k and no mm register");
+    f._preserved_regs[RegGroup::kMask] = 0; f._preserved_regs[RegGroup::kX86_MM] = 0;
+    if (!VECS) { V_ASSERT(f.preserved_regs(RegGroup::kVec) == 0, "this convention preserves no vector register"); f._preserved_regs[RegGroup::kVec] = 0; }
+  }
 
   // ---- configuration: everything the user or the allocator may set
   f.add_dirty_regs(RegGroup::kGp, nondet_u32() & 0xFFFF);
@@ -173,6 +210,7 @@ static void run(Platform plat, PlatformABI pabi, CallConvId ccid) {
   uint32_t pres_gp = f.preserved_regs(RegGroup::kGp), pres_vec = f.preserved_regs(RegGroup::kVec), pres_k = f.preserved_regs(RegGroup::kMask), pres_mm = f.preserved_regs(RegGroup::kX86_MM);
   Error ef = f.finalize();
   V_ASSERT(ef == Error::kOk, "finalize accepted");
+  V_ASSERT(f.push_pop_save_size() == W * (uint32_t)__builtin_popcount(f.saved_regs(RegGroup::kGp)), "dbg P after finalize");
   uint32_t A = f.final_stack_alignment(), N = cc.natural_stack_alignment();
   bool has_fp = f.has_preserved_fp(), has_da = f.has_dynamic_alignment();
 #if KF_C07A   // x86-32: alignment 8 promised without realignment (see h_frame.cpp)
@@ -190,9 +228,10 @@ static void run(Platform plat, PlatformABI pabi, CallConvId ccid) {
   for (uint32_t i = 0; i < NV; i++) { entry_vec[i] = nondet_u32(); vec[i] = entry_vec[i]; }
   for (uint32_t i = 0; i < 8; i++) { entry_k[i] = nondet_u32(); entry_mm[i] = nondet_u32(); kr[i] = entry_k[i]; mmr[i] = entry_mm[i]; }
   for (uint32_t g = 0; g < 4; g++) s_valid[g] = 0;
+  viol = 0; ex_valid = false;
   da_valid = false;
   val_t sp0 = top - W, ret_addr = nondet_u32();
-  gp[4] = sp0; ret_word = ret_addr;
+  gp[4] = sp0; ret_word = ret_addr; push_lo = sp0;
   ret_seen = false; n_inst = 0; n_store = 0;
   BaseEmitter* em = reinterpret_cast<BaseEmitter*>(emitter_mem);
   em->_environment = env;
@@ -202,9 +241,12 @@ static void run(Platform plat, PlatformABI pabi, CallConvId ccid) {
   // ---- prolog
   Error ep = helper.emit_prolog(f);
   V_ASSERT(ep == Error::kOk, "prolog emitted");
+  flush_checks();
   val_t sp_body = gp[4];
+  V_ASSERT(f.push_pop_save_size() == W * (uint32_t)__builtin_popcount(f.saved_regs(RegGroup::kGp)), "dbg P after prolog");
   uint32_t P = f.push_pop_save_size(), S = f.stack_adjustment();
   bool nonempty = S != 0 || f.has_func_calls();
+  dbg_P = P; dbg_S = S; dbg_sp0 = sp0; dbg_spb = sp_body; dbg_saved = f.saved_regs(RegGroup::kGp); dbg_attr = uint32_t(f.attributes()); dbg_da = has_da; dbg_ninst = n_inst;
   verif_observe(sp0 - sp_body); verif_observe(n_inst); verif_observe(n_store);
   if (!has_da) V_ASSERT(sp_body == sp0 - P - S, "body SP = entry SP minus pushes minus adjustment");
   if (nonempty) V_ASSERT(sp_body % A == 0, "inside the body SP has the promised alignment");
@@ -221,22 +263,14 @@ static void run(Platform plat, PlatformABI pabi, CallConvId ccid) {
   for (uint32_t i = 0; i < 16; i++) if ((clob_gp >> i) & 1) gp[i] = nondet_u32();
   for (uint32_t i = 0; i < NV; i++) if ((clob_vec >> i) & 1) vec[i] = nondet_u32();
   for (uint32_t i = 0; i < 8; i++) { if (((f.dirty_regs(RegGroup::kMask) | ~f.preserved_regs(RegGroup::kMask)) >> i) & 1) kr[i] = nondet_u32(); if (((f.dirty_regs(RegGroup::kX86_MM) | ~f.preserved_regs(RegGroup::kX86_MM)) >> i) & 1) mmr[i] = nondet_u32(); }
-  // the body writes the call area and the local area only: none of the saved slots may lie there
+  // the body writes the call area and the local area only: both must lie below everything the prolog stored
   val_t c0 = sp_body, l0 = sp_body + f.local_stack_offset();
-  for (uint32_t i = 0; i < 16; i++) {
-    if ((s_valid[G_GP] >> i) & 1) V_ASSERT(!overlap(s_addr[G_GP][i], W, c0, csz) && !overlap(s_addr[G_GP][i], W, l0, lsz), "saved GP register lies outside the call and local areas");
-    if ((s_valid[G_VEC] >> i) & 1) V_ASSERT(!overlap(s_addr[G_VEC][i], 16, c0, csz) && !overlap(s_addr[G_VEC][i], 16, l0, lsz), "saved xmm register lies outside the call and local areas");
-  }
-  for (uint32_t i = 0; i < 8; i++) {
-    if ((s_valid[G_K] >> i) & 1) V_ASSERT(!overlap(s_addr[G_K][i], 8, c0, csz) && !overlap(s_addr[G_K][i], 8, l0, lsz), "saved k register lies outside the call and local areas");
-    if ((s_valid[G_MM] >> i) & 1) V_ASSERT(!overlap(s_addr[G_MM][i], 8, c0, csz) && !overlap(s_addr[G_MM][i], 8, l0, lsz), "saved mm register lies outside the call and local areas");
-  }
-  if (da_valid) V_ASSERT(!overlap(da_addr, W, c0, csz) && !overlap(da_addr, W, l0, lsz), "DA slot lies outside the call and local areas");
-  V_ASSERT(c0 + csz <= l0 && l0 + lsz <= sp0, "call area below local area below the return address");
+  V_ASSERT(c0 + csz <= l0 && l0 + lsz <= push_lo && (!ex_valid || l0 + lsz <= ex_lo) && (!da_valid || l0 + lsz <= da_addr), "call area below local area below every saved register, the DA slot and the return address");
 
   // ---- epilog
   Error ee = helper.emit_epilog(f);
   V_ASSERT(ee == Error::kOk, "epilog emitted");
+  flush_checks();
   V_ASSERT(ret_seen, "epilog ends in ret");
   V_ASSERT(ret_target == ret_addr, "ret uses the caller's return address");
   V_ASSERT(gp[4] == sp0 + W + f.callee_stack_cleanup(), "SP after ret = entry SP plus return address plus callee cleanup");
@@ -254,17 +288,45 @@ static void run(Platform plat, PlatformABI pabi, CallConvId ccid) {
 }
 
 static const CallConvId ids32[8] = { CallConvId::kCDecl, CallConvId::kStdCall, CallConvId::kFastCall, CallConvId::kVectorCall, CallConvId::kThisCall,
-                                     CallConvId::kRegParm3, CallConvId::kLightCall2, CallConvId::kLightCall4 };
+                                     CallConvId::kRegParm3, CallConvId::kRegParm1, CallConvId::kRegParm2 };
 HARNESS h_prolog_x86() {
   uint32_t k = nondet_u8(); bool win = (k & 8) != 0;
-  run<Arch::kX86, K_NONE, false>(win ? Platform::kWindows : Platform::kLinux, win ? PlatformABI::kMSVC : PlatformABI::kGNU, ids32[k & 7]);
+  run<Arch::kX86, K_NONE, false, false>(win ? Platform::kWindows : Platform::kLinux, win ? PlatformABI::kMSVC : PlatformABI::kGNU, ids32[k & 7]);
 }
 HARNESS h_prolog_x86_kf_C07A() {
   uint32_t k = nondet_u8(); bool win = (k & 8) != 0;
-  run<Arch::kX86, K_C07A, false>(win ? Platform::kWindows : Platform::kLinux, win ? PlatformABI::kMSVC : PlatformABI::kGNU, ids32[k & 7]);
+  run<Arch::kX86, K_C07A, false, false>(win ? Platform::kWindows : Platform::kLinux, win ? PlatformABI::kMSVC : PlatformABI::kGNU, ids32[k & 7]);
 }
-HARNESS h_prolog_x64_sysv() { run<Arch::kX64, K_NONE, false>(Platform::kLinux, PlatformABI::kGNU, CallConvId::kX64SystemV); }
-HARNESS h_prolog_x64_win() { run<Arch::kX64, K_NONE, false>(Platform::kWindows, PlatformABI::kMSVC, nondet_bool() ? CallConvId::kX64Windows : CallConvId::kVectorCall); }
-HARNESS h_prolog_x64_light() { run<Arch::kX64, K_NONE, false>(Platform::kLinux, PlatformABI::kGNU, CallConvId(uint32_t(CallConvId::kLightCall2) + nondet_u8() % 3)); }
-HARNESS h_prolog_x64_kf_C07B() { run<Arch::kX64, K_C07B, true>(Platform::kLinux, PlatformABI::kGNU, CallConvId::kX64SystemV); }
-HARNESS h_prolog_x64_custom() { run<Arch::kX64, K_NONE, true>(Platform::kLinux, PlatformABI::kGNU, CallConvId::kX64SystemV); }
+HARNESS h_prolog_x64_sysv() { run<Arch::kX64, K_NONE, false, false>(Platform::kLinux, PlatformABI::kGNU, CallConvId::kX64SystemV); }
+HARNESS h_prolog_x64_win() { run<Arch::kX64, K_NONE, false, true>(Platform::kWindows, PlatformABI::kMSVC, nondet_bool() ? CallConvId::kX64Windows : CallConvId::kVectorCall); }
+HARNESS h_prolog_x64_light() { run<Arch::kX64, K_NONE, false, true>(Platform::kLinux, PlatformABI::kGNU, CallConvId(uint32_t(CallConvId::kLightCall2) + nondet_u8() % 3)); }
+HARNESS h_prolog_x64_kf_C07B() { run<Arch::kX64, K_C07B, true, true>(Platform::kLinux, PlatformABI::kGNU, CallConvId::kX64SystemV); }
+HARNESS h_prolog_x64_custom() { run<Arch::kX64, K_NONE, true, true>(Platform::kLinux, PlatformABI::kGNU, CallConvId::kX64SystemV); }
+HARNESS h_dbg() {
+  Environment env(Arch::kX86, SubArch::kUnknown, Vendor::kUnknown, Platform::kLinux, PlatformABI::kGNU);
+  FuncDetail fd; fd._call_conv.init(CallConvId::kCDecl, env);
+  FuncFrame f; f.init(fd);
+  f._preserved_regs[RegGroup::kMask] = 0; f._preserved_regs[RegGroup::kX86_MM] = 0; f._preserved_regs[RegGroup::kVec] = 0;
+  f.add_dirty_regs(RegGroup::kGp, nondet_u32() & 0xFFFF);
+  f.add_dirty_regs(RegGroup::kVec, nondet_u32() & 0xFFFF);
+  f.add_dirty_regs(RegGroup::kMask, nondet_u32() & 0xFF);
+  f.add_dirty_regs(RegGroup::kX86_MM, nondet_u32() & 0xFF);
+  f.set_local_stack_size((nondet_u8() & 3) * 4); f.set_call_stack_size((nondet_u8() & 3) * 4);
+  f.set_local_stack_alignment(1u << (nondet_u8() % 7)); f.set_call_stack_alignment(1u << (nondet_u8() % 7));
+  f.add_attributes(FuncAttributes(nondet_u32()) & (FuncAttributes::kHasPreservedFP | FuncAttributes::kHasFuncCalls | FuncAttributes::kX86_AVXEnabled));
+  if (nondet_bool()) { uint32_t sa = nondet_u8() & 7; V_ASSUME(sa != 4); f.set_sa_reg_id(sa); }
+  Error e = f.finalize();
+  V_ASSERT(e == Error::kOk, "dbg fin ok");
+  V_ASSERT(f.push_pop_save_size() == 4 * __builtin_popcount(f.saved_regs(RegGroup::kGp)), "dbg P");
+  V_ASSERT(f.extra_reg_save_size() == 0, "dbg X");
+  mach::W = 4;
+  BaseEmitter* em = reinterpret_cast<BaseEmitter*>(emitter_mem);
+  em->_environment = env;
+  em->_gp_signature = OperandSignature{RegTraits<RegType::kGp32>::kSignature};
+  x86::EmitHelper helper(em, false, false);
+  mach::gp[4] = 0x10000; mach::top = 0x10004; mach::push_lo = 0x10000; mach::viol = 0; mach::ex_valid = false; mach::da_valid = false;
+  for (uint32_t g = 0; g < 4; g++) mach::s_valid[g] = 0;
+  Error ep = helper.emit_prolog(f);
+  V_ASSERT(f.push_pop_save_size() == 4 * __builtin_popcount(f.saved_regs(RegGroup::kGp)), "dbg P after prolog");
+  V_WITNESS("dbg-end");
+}
